@@ -137,7 +137,7 @@ def hand_cases():
     out.append((header(L[1], 8, 5, ["1k1", "0a"], 100), "F:30", "stale-files"))
     # a single sparse file > 4 GiB: pieces whose offset inside the file is >= 2^32 (and piece 0, where a 32-bit offset would land)
     out.append(("plen=1048576 total=4297064448 seed=7 have=- big=0,4096 rc=0 peers=0a", "F:40", "beyond-4GiB"))
-    out.append(("plen=1048576 total=4297064448 seed=9 have=- big=4097,1 rc=0 peers=0a,0a", "B:0:100 P:1 M:0:100000 F:40", "beyond-4GiB"))
+    out.append(("plen=1048576 total=4297064448 seed=9 have=- big=4097 rc=0 peers=0a,0a", "B:0:100 P:1 M:0:100000 F:40", "beyond-4GiB"))
     return out
 
 
